@@ -800,6 +800,7 @@ class X12ContextReader(object):
         """
         cur_tree = None
         cur_data_node = None
+        icvn = fic = vriic = None
         for seg in self.src:
             #find node
             orig_node = self.x12_map_node
